@@ -114,6 +114,15 @@ impl Buildpack for TestBuildpack {
         if b["launch"].as_bool().unwrap_or(false) {
             r = r.launch(LaunchBuilder::new().process(ProcessBuilder::new("web".parse().unwrap(), ["run"]).default(true).build()).build());
         }
+        if b["launch"] == "bad_wd" {
+            use std::os::unix::ffi::OsStrExt as _;
+            let wd = std::path::PathBuf::from(std::ffi::OsStr::from_bytes(b"dist/caf\xe9"));
+            r = r.launch(
+                LaunchBuilder::new()
+                    .process(ProcessBuilder::new("web".parse().unwrap(), ["run"]).working_directory(libcnb::data::launch::WorkingDirectory::Directory(wd)).build())
+                    .build(),
+            );
+        }
         if b["launch"] == "rich" {
             // several processes, slices and labels -- one label key set twice, as a placeholder refined later --
             // always added in this order: launch.toml must be the same bytes in every process
